@@ -790,15 +790,15 @@ def S.rsFuel (s : S) : Nat :=
     + s.prefeed.length + 16
 
 /-- `termCallbacks` (client.go:479-529) -/
+def S.flushQueue (s : S) (q : List Nat) : S :=
+  q.foldl (fun s ex => if s.placeholders.contains ex then s else s.emit (.exch ex (mkErr ["closed"]))) s
+
+def S.flushLevel (s : S) (lv : Level) : S := if lv.seqClosed then s else s.flushQueue lv.queue
+
 def S.termCallbacks (s : S) : S :=
-  let flush (s : S) (lv : Level) : S :=
-    if lv.seqClosed then s else
-    lv.queue.foldl (fun s ex => if s.placeholders.contains ex then s else s.emit (.exch ex (mkErr ["closed"]))) s
-  let s := flush s s.core.l1
-  let s := flush s s.core.l2
-  let s := { s with core := s.core.term }
-  let s := s.releasePing (mkErr ["break"])
-  s.breakAll
+  let s1 := s.flushLevel s.core.l1
+  let s2 := s1.flushLevel s1.core.l2
+  ({ s2 with core := s2.core.term }.releasePing (mkErr ["break"])).breakAll
 
 def S.finishRs (s : S) (r : RsResult) : S × RsResult :=
   match r with
